@@ -114,3 +114,45 @@ func SpecialKeys() ([][]byte, []string) {
 	}
 	return ks, cs
 }
+
+// SmallXKeys returns every encoding (both y roots, both sign bits) of the curve points whose
+// x coordinate is tiny in absolute value or sits next to a limb boundary: x, p-x for x in
+// [1, 512) and 2^k-1, 2^k, 2^k+1 for the limb boundaries of both layouts. These are the
+// strings whose square root (or its negation) is held internally as p+k, i.e. where the
+// parity of an unreduced limb differs from the parity of the residue (eighth seed wave).
+// y^2 = (1 + x^2)/(1 - d x^2) follows from -x^2 + y^2 = 1 + d x^2 y^2.
+func SmallXKeys() ([][]byte, []string) {
+	var ks [][]byte
+	var cs []string
+	xs := []*big.Int{}
+	for i := int64(1); i < 512; i++ {
+		xs = append(xs, big.NewInt(i))
+	}
+	for _, k := range []uint{25, 26, 51, 102, 127, 128, 153, 204, 230, 254} {
+		b := new(big.Int).Lsh(One, k)
+		xs = append(xs, new(big.Int).Sub(b, One), b, new(big.Int).Add(b, One))
+	}
+	for _, x := range xs {
+		x2 := new(big.Int).Mul(x, x)
+		x2.Mod(x2, ref.P)
+		num := new(big.Int).Add(x2, One)
+		den := new(big.Int).Mul(ref.D, x2)
+		den.Sub(One, den).Mod(den, ref.P)
+		den.ModInverse(den, ref.P)
+		y2 := num.Mul(num, den)
+		y2.Mod(y2, ref.P)
+		y := new(big.Int).ModSqrt(y2, ref.P)
+		if y == nil {
+			continue
+		}
+		for _, yy := range []*big.Int{y, new(big.Int).Sub(ref.P, y)} {
+			for s := 0; s < 2; s++ {
+				b := ref.LEBytes(yy, 32)
+				b[31] |= byte(s) << 7
+				ks = append(ks, b)
+				cs = append(cs, "small-|x|")
+			}
+		}
+	}
+	return ks, cs
+}
